@@ -983,6 +983,42 @@ func c11(c *core.Ctx, r *core.Report) {
 				r.Check(okFloor, core.FuncName(carryFn)+"#floor", an.Pos(c, st), "emitted = floor(due)", "the emitted part is "+an.D().Of(sub.Y)+", not floor(due): the stored remainder can be negative or exceed 1")
 			}
 		}
+		// any other state the rate method keeps between ticks (a remembered window, a cached index) is brought up to date
+		// on every return alike: a return that skips the update — an early `return 0` for an idle window, say — leaves
+		// the next tick with stale state
+		for _, k := range cellsOf(forFn) {
+			if carry.fld != nil && k.fld != nil && an.SameField(k.fld, carry.fld) {
+				continue
+			}
+			exits := an.PathCount(forFn, func(in ssa.Instruction) an.Interval {
+				if st, ok := in.(*ssa.Store); ok && k.addrIs(st.Addr) {
+					return an.Interval{Lo: 1, Hi: 1}
+				}
+				return an.Interval{}
+			})
+			var first *an.Interval
+			same := true
+			var odd ssa.Instruction
+			for _, e := range exits {
+				if _, isRet := e.Instr.(*ssa.Return); !isRet {
+					continue
+				}
+				cnt := e.Count
+				if first == nil {
+					first = &cnt
+					continue
+				}
+				if cnt != *first || cnt.Lo != cnt.Hi {
+					same = false
+					odd = e.Instr
+				}
+			}
+			pos := c.Pos(forFn.Pos())
+			if odd != nil {
+				pos = an.Pos(c, odd)
+			}
+			r.Check(same, core.FuncName(forFn)+"#state("+k.name+")-on-every-return", pos, "state field "+k.name+" is updated alike on every return", "the rate method updates its state field "+k.name+" on some returns only: a tick that leaves through the other return (an idle window, an early exit) leaves stale state behind, and later ticks are computed from it")
+		}
 		n := 0
 		for _, fn := range c.AllFuncs {
 			if fn == forFn || fn == carryFn {
